@@ -43,6 +43,9 @@ func (c *Classifier) score(id string, unknown, known *indexedDocument, unknownSt
 
 	start, end := diffRange(known.Norm, diffs)
 	distance := scoreDiffs(id, diffs[start:end])
+	if verifOn {
+		verifEmit("score", "doc", id, "ts", unknownStart, "te", unknownEnd, "start", start, "end", end, "dist", distance, "diffs", diffs)
+	}
 
 	if c.tc.traceScoring(known.s.origin) {
 		c.tc.trace("Diffs against %s:\n%s", known.s.origin, spew.Sdump(diffs[start:end]))
